@@ -274,6 +274,25 @@ fixed("C08", "C08:prefix-then-non-ascii-character", "f1ffaa6",
        {"kind": "prefixchar", "paste_threshold": 8, "pre": B(b"abcdefghijkl".hex()), "prefix": B("1b5b"), "char": B("e282ac"),
         "post": B(b"xyz".hex())}])
 
+fixed("C12", "C12:instance-reuse", "15e1e3f",
+      "an Input used on the main thread and then on a worker thread kept the numbers of its closed wake-up pipe: the "
+      "second context read (and consumed) data from a pipe the application had opened meanwhile",
+      [{"kind": "reuse", "uses": ["main", "thread"], "sigint_event": False, "tty": "cooked"},
+       {"kind": "reuse", "uses": ["main", "thread", "thread"], "sigint_event": True, "tty": "cbreak"}])
+
+fixed("C14", "C14:style-named-and-given-a-falsy-value", "6c31357",
+      "fmtstr('x', 'bold', bold=0) was accepted and bold although a falsy style value now means off (interaction of 3e6bbf0 and 6d4819a)",
+      [{"kind": "invalid", "args": ["bold"], "kwargs": {"bold": 0}},
+       {"kind": "invalid", "args": [], "kwargs": {"style": "italic", "italic": 0}}])
+fixed("C14", "C14:shared_atts-on-value-without-runs", "4825e64",
+      "shared_atts (and with it upper()/ljust()/...) raised IndexError on a FmtStr without runs: f * 0, sep.join([]), FmtStr()",
+      [{"kind": "shared-no-runs", "how": "mul0"}, {"kind": "shared-no-runs", "how": "join"}])
+fixed("C15", "C15:text-result-parsed-as-markup", "0d6942b",
+      "delegated str methods parsed their text result as markup: text holding ESC or U+009B lost characters "
+      "(the U+009B case was opened by e2d1c23)",
+      [{"kind": "control-text", "spec": [["caf\x9b", {}], [" au lait", {"bold": True}]], "method": "upper", "args": []},
+       {"kind": "control-text", "spec": [["\x1b", {"fg": 31}], ["[1mA ", {"fg": 31}]], "method": "strip", "args": []}])
+
 known("C03", "C03:prefix-then-undecodable-byte",
       "get_key raises UnicodeDecodeError for a table-sequence prefix (e.g. ESC) followed by a byte >= 0x80 "
       "that does not decode: ESC + any 8-bit byte under ascii, ESC + a UTF-8 lead/continuation byte under utf-8",
